@@ -1119,7 +1119,17 @@ def tie(ctx):
             # arguments: g's parameter j is the caller's input at position perm.index(j) (comptime-free probes)
             want_args = [(decl.index(j) if params[j] != "btmp" else None) for j in range(len(params))]
             tail_outs = prog[2][nres:]
-            want_tail = [start + asg.get(j, -1) for j in decl if params[j] in ("borrowed", "bint")]
+            # independent oracle (positional rule, written here): the k-th borrowed parameter of g — place or temporary —
+            # owns output port nres + k; a place argument is re-bound to exactly that port
+            py_asg, k_b = {}, 0
+            for j, kd in enumerate(params):
+                if is_b(kd):
+                    if kd != "btmp":
+                        py_asg[j] = nres + k_b
+                    k_b += 1
+            if asg != py_asg:
+                ctx.broke(f"Lean updateInoutPorts bindings {asg} differ from the positional rule {py_asg} for {params}/{nres}")
+            want_tail = [start + py_asg[j] for j in decl if params[j] in ("borrowed", "bint")]
             args_ok = len(args) == len(want_args) and all(w is None or a == w for a, w in zip(args, want_args))
             if not args_ok or nout != nres + nb:
                 ctx.violation(key + " call", f"Call of g in caller: args {args} nout {nout}, expected args {want_args} nout {nres + nb}",
